@@ -255,6 +255,13 @@ func (t *basicTaskBase) ensureBasicTaskKilled() (err error) {
 	if t.taskCmd.ProcessState != nil && t.taskCmd.ProcessState.Exited() {
 		return nil
 	}
+	if t.taskCmd.ProcessState != nil {
+		// Wait() has returned although the child did not exit by itself: it was ended by a signal.
+		// Its reaper is gone, so nobody would ever read a pending final state (the next STOP would
+		// block on it); what is left to do is to take down whatever the child had forked.
+		_ = syscall.Kill(-t.taskCmd.Process.Pid, syscall.SIGKILL)
+		return nil
+	}
 
 	// Preparing to kill running task
 	t.pendingFinalTaskStateCh <- mesos.TASK_KILLED
